@@ -276,6 +276,13 @@ def build(r):
     if k == 'nuf':    # freshly rebuilt catalogue object (new mesh call)
         from vlib import c17_nutils
         return c17_nutils.fresh(r[1])
+    if k == 'call':   # generic call of a nutils callable by dotted name
+        import importlib
+        modname, *attrs = r[1].split('.')
+        f = importlib.import_module('nutils.' + modname)
+        for a in attrs:
+            f = getattr(f, a)
+        return f(*[build(x) for x in r[2]], **{n: build(x) for n, x in r[3]})
     if k == 'pk':
         return pickle.loads(pickle.dumps(build(r[1]), protocol=int(r[2])))
     if k == 'misc':
@@ -857,3 +864,271 @@ def base_corpus():
     # class objects
     out += [['C', k] for k in sorted(classes())]
     return out
+
+
+# ---------------------------------------------------------------- routes that must preserve the hash (Monitor B) and interning pools (Monitor C)
+
+def has_nan(r):
+    """Does the recipe contain a NaN scalar leaf (NaN != NaN defeats ==-based interning and equality: left out of identity verdicts)."""
+    if not isinstance(r, list) or not r:
+        return False
+    if r[0] == 'f':
+        x = unfbits(r[1])
+        return x != x
+    if r[0] == 'c':
+        a, b = unfbits(r[1]), unfbits(r[2])
+        return a != a or b != b
+    return any(has_nan(x) for x in r if isinstance(x, list))
+
+
+_NUMERIC_LOOKALIKE = ('b', 'f', 'c', 'np', 'npld', 'a0', 'sub', 'enum')
+
+
+def _contains_kind(r, kinds):
+    if not isinstance(r, list) or not r:
+        return False
+    if isinstance(r[0], str) and r[0] in kinds:
+        return True
+    return any(_contains_kind(x, kinds) for x in r if isinstance(x, list))
+
+
+def risky_intern(r):
+    """An interned own-class instance whose arguments contain scalars that compare equal to scalars of another type
+    (1 == 1.0 == True): which object such a construction returns depends on what is alive (finding
+    C17-intern-key-python-equality), so these are kept out of order-sensitive comparisons."""
+    if not isinstance(r, list) or not r:
+        return False
+    if r[0] == 'im' and r[1].split('.')[1] in INTERNED and _contains_kind(r[2:], _NUMERIC_LOOKALIKE):
+        return True
+    if r[0] == 'call' and _contains_kind(r[2:], _NUMERIC_LOOKALIKE):
+        return True
+    return any(risky_intern(x) for x in r if isinstance(x, list))
+
+
+def safe_value(rng, pool, depth=2):
+    """Hashable random value without NaN and without numeric look-alike scalars (ints, strings, bytes, None, tuples...)."""
+    for _ in range(50):
+        r = gen_value(rng, pool, depth, True)
+        if not has_nan(r) and not _contains_kind(r, _NUMERIC_LOOKALIKE):
+            return r
+    return Ri(int(rng.integers(2, 100)))
+
+
+def np_equiv(r, rng):
+    """The same value with python scalars replaced by numpy scalars that nutils_hash documents as equivalent."""
+    k = r[0]
+    if k == 'b' and rng.random() < .7:
+        return ['np', 'bool', r]
+    if k == 'i':
+        n = int(r[1])
+        fits = [dt for dt in INT_DT if _fits(n, dt)]
+        if fits and rng.random() < .7:
+            return ['np', fits[int(rng.integers(len(fits)))], r]
+    if k == 'f':
+        x = unfbits(r[1])
+        with numpy.errstate(all='ignore'):
+            fits = ['float64'] + [dt for dt in ('float32', 'float16') if x != x or float(numpy.dtype(dt).type(x)) == x]
+        if rng.random() < .7:
+            return ['np', fits[int(rng.integers(len(fits)))], r]
+    if k == 'c':
+        z = complex(unfbits(r[1]), unfbits(r[2]))
+        with numpy.errstate(all='ignore'):
+            ok64 = all(v != v or float(numpy.float32(v)) == v for v in (z.real, z.imag))
+        if rng.random() < .7:
+            return ['np', 'complex64' if ok64 and rng.random() < .5 else 'complex128', r]
+    if k in SEQ:
+        return [k, [np_equiv(x, rng) for x in r[1]]]
+    if k in MAP:
+        return [k, [[np_equiv(a, rng), np_equiv(b, rng)] for a, b in r[1]]]
+    return r
+
+
+def _shuffled(items, rng):
+    items = list(items)
+    perm = rng.permutation(len(items))
+    return [items[int(i)] for i in perm]
+
+
+def reorder_unordered(r, rng):
+    k = r[0]
+    if k in ('S', 'F', 'fm'):
+        return [k, _shuffled([reorder_unordered(x, rng) for x in r[1]], rng)]
+    if k in MAP:
+        return [k, _shuffled([[reorder_unordered(a, rng), reorder_unordered(b, rng)] for a, b in r[1]], rng)]
+    if k in ('t', 'l'):
+        return [k, [reorder_unordered(x, rng) for x in r[1]]]
+    return r
+
+
+def int_array_routes(rng):
+    """Recipes of arrays holding the same small integers in every width / signedness / layout, and as nested lists."""
+    shape = [(), (1,), (3,), (2, 2), (2, 3), (0,), (1, 2, 2)][int(rng.integers(7))]
+    n = int(numpy.prod(shape, dtype=int))
+    nonneg = rng.random() < .6
+    vals = [int(v) for v in rng.integers(0 if nonneg else -100, 100, n)]
+    routes = []
+    for dt in ('|i1', '<i2', '<i4', '<i8', '>i4', '>i8') + (('|u1', '<u2', '<u4', '<u8') if nonneg else ()):
+        for lay in ('C', 'F', 'S', 'RO'):
+            if lay == 'C' or (len(shape) >= 1 and n):
+                routes.append(['A', dt, list(shape), vals, lay])
+
+    def nest(vals, shape):
+        if not shape:
+            return Ri(vals[0])
+        step = len(vals) // shape[0] if shape[0] else 0
+        return ['l', [nest(vals[i * step:(i + 1) * step], shape[1:]) for i in range(shape[0])]]
+    if n:
+        routes.append(nest(vals, list(shape)))
+    return routes
+
+
+def float_array_routes(rng):
+    shape = [(), (2,), (2, 2), (3,)][int(rng.integers(4))]
+    n = int(numpy.prod(shape, dtype=int))
+    vals = [fbits(float(rng.choice([0., -0., 1., -1., .5, 2., 3., 1.5, -2.25]))) for _ in range(n)]
+    return [['A', dt, list(shape), vals, 'C'] for dt in ('<f8', '>f8', '<f4', '<f2')]
+
+
+def route_pairs(rng, pool):
+    """[(kind, recipe1, recipe2)]: two routes to the same value; kinds in STRICT_ROUTES are the ones the property lists."""
+    out = []
+    x, y = safe_value(rng, pool), safe_value(rng, pool)
+    u, w = gen_value(rng, pool, 2, True), gen_value(rng, pool, 2, True)     # any hashable values (may contain look-alikes)
+    for key in ('a.Imm2', 'b.Imm2', 'a.ImmV', 'a.Sing2', 'a.Data2'):
+        a, b = (u, w) if key.split('.')[1].startswith('Imm') else (x, y)
+        out.append(('kwpos', ['im', key, [a, b], []], ['im', key, [], [['y', b], ['x', a]]]))
+        out.append(('kwpos', ['im', key, [a, b], []], ['im', key, [a], [['y', b]]]))
+    for key, a in (('a.ImmD', u), ('a.SingD', x)):
+        out.append(('default', ['im', key, [a], []], ['im', key, [a, Ri(3)], []]))
+        out.append(('default', ['im', key, [a], []], ['im', key, [], [['y', Ri(3)], ['x', a]]]))
+    out.append(('default', ['im', 'a.Data3', [x, y], []], ['im', 'a.Data3', [x, y, Ri(3)], []]))
+    out.append(('kwpos', ['im', 'a.Data3', [x, y, x], []], ['im', 'a.Data3', [], [['z', x], ['y', y], ['x', x]]]))
+    out.append(('kwpos', ['im', 'a.ImmKw', [u, w], [['p', u], ['q', w]]], ['im', 'a.ImmKw', [u, w], [['q', w], ['p', u]]]))
+    out.append(('kwpos', ['im', 'a.ImmKw', [u, w], [['p', u]]], ['im', 'a.ImmKw', [], [['p', u], ['y', w], ['x', u]]]))
+    out.append(('kwpos', ['im', 'a.ImmKwo', [u, w], [['z', u]]], ['im', 'a.ImmKwo', [], [['z', u], ['y', w], ['x', u]]]))
+    out.append(('kwpos', ['im', 'a.SingKw', [x], [['p', x], ['q', y]]], ['im', 'a.SingKw', [], [['q', y], ['x', x], ['p', x]]]))
+    # real nutils classes
+    i, j = int(rng.integers(0, 3)), int(rng.integers(1, 3))
+    out += [('kwpos', ['call', 'transform.Index', [Ri(j), Ri(i)], []], ['call', 'transform.Index', [], [['index', Ri(i)], ['ndims', Ri(j)]]]),
+            ('default', ['call', 'transform.SimplexEdge', [Ri(j), Ri(i)], []], ['call', 'transform.SimplexEdge', [Ri(j), Ri(i), Rb(0)], []]),
+            ('kwpos', ['call', 'transform.SimplexEdge', [Ri(j), Ri(i), Rb(1)], []], ['call', 'transform.SimplexEdge', [], [['inverted', Rb(1)], ['iedge', Ri(i)], ['ndims', Ri(j)]]]),
+            ('kwpos', ['call', 'transform.SimplexChild', [Ri(j), Ri(i)], []], ['call', 'transform.SimplexChild', [], [['ichild', Ri(i)], ['ndims', Ri(j)]]]),
+            ('default', ['call', 'transformseq.IndexTransforms', [Ri(j), Ri(i + 1)], []], ['call', 'transformseq.IndexTransforms', [Ri(j), Ri(i + 1), Ri(0)], []]),
+            ('kwpos', ['call', 'transformseq.IndexTransforms', [Ri(j), Ri(i + 1), Ri(2)], []], ['call', 'transformseq.IndexTransforms', [], [['offset', Ri(2)], ['length', Ri(i + 1)], ['ndims', Ri(j)]]]),
+            ('kwpos', ['call', 'points.SimplexGaussPoints', [Ri(j), Ri(i + 1)], []], ['call', 'points.SimplexGaussPoints', [], [['degree', Ri(i + 1)], ['ndims', Ri(j)]]]),
+            ('kwpos', ['call', 'points.SimplexBezierPoints', [Ri(j), Ri(i + 2)], []], ['call', 'points.SimplexBezierPoints', [], [['n', Ri(i + 2)], ['ndims', Ri(j)]]]),
+            ('kwpos', ['call', 'transformseq.PlainTransforms', [['t', [['t', [['call', 'transform.Index', [Ri(1), Ri(i)], []]]]]], Ri(1), Ri(1)], []],
+             ['call', 'transformseq.PlainTransforms', [], [['fromdims', Ri(1)], ['todims', Ri(1)], ['transforms', ['t', [['t', [['call', 'transform.Index', [], [['ndims', Ri(1)], ['index', Ri(i)]]]]]]]]]])]
+    # numpy scalar vs python scalar
+    for _ in range(3):
+        v = gen_value(rng, pool, 1)
+        out.append(('npscalar', v, np_equiv(v, rng)))
+    out.append(('npscalar', ['im', 'a.Imm2', [u, w], []], ['im', 'a.Imm2', [np_equiv(u, rng), np_equiv(w, rng)], []]))
+    # integer width inside arraydata (strict) and float width / layout (extra)
+    routes = int_array_routes(rng)
+    base = routes[0]
+    for r2 in _shuffled(routes[1:], rng)[:6]:
+        out.append(('arraydata-intwidth', ['AD', base], ['AD', r2]))
+    r2 = routes[int(rng.integers(1, len(routes)))]
+    out.append(('arraydata-intwidth', ['t', [['AD', base], x]], ['t', [['AD', r2], x]]))
+    out.append(('arraydata-intwidth', ['im', 'a.Imm2', [['AD', base], x], []], ['im', 'a.Imm2', [['AD', r2], x], []]))
+    out.append(('arraydata-intwidth', ['ev', 'const', base], ['ev', 'const', r2]))
+    out.append(('arraydata-intwidth', ['ev', 'Const', ['AD', base]], ['ev', 'Constkw', ['AD', r2]]))
+    fr = float_array_routes(rng)
+    for r2 in fr[1:]:
+        out.append(('extra:arraydata-floatwidth', ['AD', fr[0]], ['AD', r2]))
+    a = gen_array(rng)
+    for v in array_variants(a, rng):
+        if v[0] == 'A' and v[1] == a[1] and v[2] == a[2] and v[4] != 'C':
+            out.append(('extra:ndarray-layout', a, v))
+    # commutative operand order
+    shape = [[], [2], [2, 3]][int(rng.integers(3))]
+    dt = ('float', 'int', 'complex')[int(rng.integers(3))]
+    ea, eb, ec = (gen_evaluable(rng, 1, shape, dt) for _ in range(3))
+    for op, OP in (('add', 'Add'), ('mul', 'Mul')):
+        out += [('commutative', ['ev', op, ea, eb], ['ev', op, eb, ea]), ('commutative', ['ev', OP, ea, eb], ['ev', OP, eb, ea]), ('commutative', ['ev', op, ea, eb], ['ev', OP + 'kw', eb, ea]),
+                ('commutative', ['ev', op, ec, ['ev', op, ea, eb]], ['ev', op, ['ev', op, eb, ea], ec]),
+                ('commutative', ['ev', 'sum', ['ev', op, ['ev', 'ins', ea, 2], ['ev', 'ins', eb, 2]]], ['ev', 'sum', ['ev', op, ['ev', 'inskw', eb, 2], ['ev', 'ins', ea, 2]]])]
+    out.append(('commutative', ['fm', [x, y, x, u]], ['fm', [u, x, x, y]]))
+    eqv = ev_equivalents(ea, rng)
+    if eqv:
+        out.append(('kwpos', ea, eqv[0]))
+    # unordered containers: insertion order
+    for _ in range(3):
+        v = gen_value(rng, pool, 1)
+        out.append(('unordered', v, reorder_unordered(v, rng)))
+    v = ['d', [[safe_value(rng, pool, 3), gen_value(rng, pool, 2)] for _ in range(4)]]
+    out.append(('unordered', v, reorder_unordered(v, rng)))
+    out.append(('unordered', ['fd', v[1]], ['fd', v[1][::-1]]))
+    out.append(('unordered', ['F', [safe_value(rng, pool, 3) for _ in range(5)]], None))
+    out[-1] = ('unordered', out[-1][1], reorder_unordered(out[-1][1], rng))
+    return out
+
+
+STRICT_ROUTES = ('kwpos', 'default', 'npscalar', 'arraydata-intwidth', 'commutative', 'unordered', 'pickle', 'process', 'rebuilt')
+
+
+def intern_pool(rng, pool):
+    """List of entries; an entry is a list of recipes (routes) of ONE interned value; different entries are different values."""
+    x, y, z = safe_value(rng, pool), safe_value(rng, pool), safe_value(rng, pool)
+    ents = []
+    for key in ('a.Sing2', 'a.Sing2b', 'b.Sing2', 'a.Data2', 'a.Data2alt', 'b.Data2'):
+        ents.append([['im', key, [x, y], []], ['im', key, [], [['y', y], ['x', x]]], ['im', key, [x], [['y', y]]]])
+    ents.append([['im', 'a.Sing2', [y, x], []], ['im', 'a.Sing2', [], [['x', y], ['y', x]]]])
+    ents.append([['im', 'a.Data2', [y, x], []], ['im', 'a.Data2', [], [['x', y], ['y', x]]]])
+    ents.append([['im', 'a.SingD', [x], []], ['im', 'a.SingD', [x, Ri(3)], []], ['im', 'a.SingD', [], [['y', Ri(3)], ['x', x]]]])
+    ents.append([['im', 'a.SingD', [x, y], []]])
+    ents.append([['im', 'a.Data3', [x, y], []], ['im', 'a.Data3', [x, y, Ri(3)], []], ['im', 'a.Data3', [], [['z', Ri(3)], ['y', y], ['x', x]]]])
+    ents.append([['im', 'a.Data3', [x, y, z], []]])
+    ents.append([['im', 'a.SingKw', [x], [['p', y], ['q', z]]], ['im', 'a.SingKw', [], [['q', z], ['p', y], ['x', x]]]])
+    ents.append([['im', 'a.Data1', [['im', 'a.Sing2', [x, y], []]], []], ['im', 'a.Data1', [], [['x', ['im', 'a.Sing2', [], [['y', y], ['x', x]]]]]]])
+    routes = int_array_routes(rng)
+    ents.append([['AD', r] for r in _shuffled(routes, rng)[:5]])
+    ents.append([['AD', ['A', '<i8', [1, 3], [1, 2, 3], 'C']], ['AD', ['A', '<i4', [1, 3], [1, 2, 3], 'F']]])
+    ents.append([['AD', ['A', '<f8', [3], [fbits(1.), fbits(2.), fbits(3.)], 'C']], ['AD', ['A', '<f4', [3], [fbits(1.), fbits(2.), fbits(3.)], 'C']]])
+    i, j = int(rng.integers(0, 3)), int(rng.integers(1, 3))
+    ents.append([['call', 'transform.Index', [Ri(j), Ri(i)], []], ['call', 'transform.Index', [], [['index', Ri(i)], ['ndims', Ri(j)]]]])
+    ents.append([['call', 'transform.SimplexEdge', [Ri(j), Ri(i)], []], ['call', 'transform.SimplexEdge', [Ri(j), Ri(i), Rb(0)], []]])
+    ents.append([['call', 'transform.SimplexEdge', [Ri(j), Ri(i), Rb(1)], []]])
+    ents.append([['call', 'transformseq.IndexTransforms', [Ri(j), Ri(i + 1)], []], ['call', 'transformseq.IndexTransforms', [Ri(j), Ri(i + 1), Ri(0)], []]])
+    ents.append([['call', 'points.SimplexGaussPoints', [Ri(j), Ri(i + 1)], []], ['call', 'points.SimplexGaussPoints', [], [['degree', Ri(i + 1)], ['ndims', Ri(j)]]]])
+    ents.append([['call', 'element.LineReference', [], []]])
+    ents.append([['call', 'element.TriangleReference', [], []]])
+    shape = [[], [2], [2, 3]][int(rng.integers(3))]
+    dt = ('float', 'int')[int(rng.integers(2))]
+    ea, eb = gen_evaluable(rng, 1, shape, dt), gen_evaluable(rng, 1, shape, dt)
+    ents.append([ea] + ev_equivalents(ea, rng))
+    ents.append([['ev', 'add', ea, eb], ['ev', 'add', eb, ea], ['ev', 'Add', eb, ea], ['ev', 'Addkw', ea, eb]])
+    ents.append([['ev', 'mul', ea, eb], ['ev', 'mul', eb, ea], ['ev', 'Mulkw', eb, ea]])
+    from vlib import c17_nutils
+    names = c17_nutils.names()
+    for _ in range(3):
+        n = names[int(rng.integers(len(names)))]
+        ents.append([['nu', n], ['nuf', n]] if '.' in n and n.split('.', 1)[0] in c17_nutils._mesh_makers() else [['nu', n]])
+    return ents
+
+
+# only python bool/int/float look-alikes (the ledger predicate is deliberately this tight; complex, numpy, enum and int-subclass
+# arguments are conflated by the same mechanism but are left out of the sweep)
+CONFLATION_PAIRS = [(Ri(1), Rb(1)), (Ri(1), Rf(1.)), (Rf(0.), Rf(-0.)), (Ri(0), Rb(0)), (Ri(0), Rf(0.)), (Ri(0), Rf(-0.)), (Rb(1), Rf(1.)), (Ri(2), Rf(2.)), (Ri(-3), Rf(-3.)),
+                    (['t', [Ri(1)]], ['t', [Rf(1.)]]), (['t', [Ri(0), Rs('a')]], ['t', [Rb(0), Rs('a')]]), (['t', [['t', [Rf(0.)]], Ri(7)]], ['t', [['t', [Rf(-0.)]], Ri(7)]])]
+
+
+def conflation_case(rng):
+    """(recipe1, recipe2): the same interned class constructed from arguments that are ==-equal but are different values."""
+    a, b = CONFLATION_PAIRS[int(rng.integers(len(CONFLATION_PAIRS)))]
+    if rng.random() < .5:
+        a, b = b, a
+    other = Ri(int(rng.integers(2, 50)))
+    c = int(rng.integers(6))
+    if c == 0:
+        return ['im', 'a.Sing2', [a, other], []], ['im', 'a.Sing2', [b, other], []]
+    if c == 1:
+        return ['im', 'a.Data1', [a], []], ['im', 'a.Data1', [b], []]
+    if c == 2:
+        return ['im', 'a.Data2', [other, a], []], ['im', 'a.Data2', [], [['y', b], ['x', other]]]
+    if c == 3:
+        return ['im', 'a.SingD', [a], []], ['im', 'a.SingD', [b, Ri(3)], []]
+    if c == 4:
+        return ['im', 'a.SingKw', [other], [['k', a]]], ['im', 'a.SingKw', [other], [['k', b]]]
+    return ['im', 'a.Data1', [['t', [a, other]]], []], ['im', 'a.Data1', [['t', [b, other]]], []]
